@@ -258,7 +258,10 @@ def check_hash(ctx, w):
     ctx.ob('E-i', f.construct, 'hash match ignores bit 0', expr.spec_cond('cur_hash | 1 == namehash | 1') in tests, got=tests,
            msg='chain hash comparison does not ignore the end-of-chain bit on both sides')
     ctx.ob('E-i', f.construct, 'stop on low bit', 'T(%s)' % expr.spec_nf('cur_hash & 1') in tests, got=tests, msg='chain end test is not bit 0')
-    ctx.ob('E-i', f.construct, 'bloom consulted', '!T(_matches_bloom(self,namehash))' in tests, got=tests)
+    # a name the bloom filter excludes is answered None without walking a chain
+    nob = [expr.nfs(r, env) for c, r, p in paths.returns_with_conds(f.node)
+           if expr.Facts(expr.CP(expr.cond_str(t, env), pol) for t, pol in c).get('T(_matches_bloom(self,namehash))') is False]
+    ctx.ob('E-i', f.construct, 'bloom consulted', nob == ['None'], got=nob)
     seeks = [o.t() for o in streams.func_ops(f.node, env) if o.kind == 'seek']
     want = ('seek', 'stream', expr.spec_nf('_chain_pos + (symidx - symoffset) * _wordsize'), 'SEEK_SET')
     ctx.ob('E-i', f.construct, 'chain word position', want in seeks, got=seeks, expected=want,
